@@ -138,6 +138,7 @@ SCOPE_TEMPLATES = [
     ("aug-unbound-enclosing", "def outer():\n    n = 0\n    def inc():\n        n += 1\n        return n\n    try:\n        r = inc()\n    except NameError:\n        r = 'NameError-family'\n    return [r, n]\nR = outer()\n"),
     ("aug-local-ok", "def f(a):\n    a += 1\n    t = 2\n    t *= a\n    return t\nR = f(3)\n"),
     ("aug-global-decl", "g = 1\ndef f():\n    global g\n    g += 5\nf()\nR = g\n"),
+    ("global-decl-shadows-enclosing", "def f2(x):\n    def f3():\n        global x\n        def f4():\n            return x\n        return f4()\n    return f3()\ntry:\n    R = f2(4)\nexcept NameError:\n    R = 'NameError-family'\n", "global-decl-shadows-enclosing"),
     ("unbound-free", "def f():\n    def inner():\n        return zq\n    return inner()\ntry:\n    R = f()\nexcept NameError as e:\n    R = 'NameError-family'\n"),
     ("loop-closures", "def mk():\n    fs = []\n    for i in range(3):\n        def f():\n            return i\n        fs.append(f)\n    return [h() for h in fs]\nR = mk()\n"),
     ("loop-closures-default", "def mk():\n    fs = []\n    for i in range(3):\n        def f(i=i):\n            return i\n        fs.append(f)\n    return [h() for h in fs]\nR = mk()\n"),
@@ -433,10 +434,61 @@ def verdict(c):
             f"expected {expected(c)[i]}")
 
 
+def global_decl_shadows_enclosing(src):
+    """syntactic feature of finding C03-F4: some function declares `global v`, an enclosing function binds v, and a
+    function nested inside the declaring one reads v without binding it"""
+    import ast
+    try:
+        tree = ast.parse(src)
+    except SyntaxError:
+        return False
+
+    def binds(fn):
+        names = {a.arg for a in fn.args.args + fn.args.posonlyargs + fn.args.kwonlyargs}
+        for n in ast.walk(fn):
+            if isinstance(n, ast.Name) and isinstance(n.ctx, ast.Store):
+                names.add(n.id)
+        return names
+
+    def own_nodes(fn):
+        """nodes of fn's body that are not inside a nested def"""
+        stack = list(fn.body)
+        while stack:
+            n = stack.pop()
+            yield n
+            if not isinstance(n, (ast.FunctionDef, ast.AsyncFunctionDef, ast.Lambda)):
+                stack.extend(ast.iter_child_nodes(n))
+
+    def visit(fn, enclosing_bound):
+        decl = {v for n in own_nodes(fn) if isinstance(n, ast.Global) for v in n.names}
+        own = {a.arg for a in fn.args.args + fn.args.posonlyargs + fn.args.kwonlyargs}
+        own |= {n.id for n in own_nodes(fn) if isinstance(n, ast.Name) and isinstance(n.ctx, ast.Store)}
+        inner = [n for n in own_nodes(fn) if isinstance(n, (ast.FunctionDef, ast.AsyncFunctionDef))]
+        for v in decl & enclosing_bound:
+            for g in inner:
+                for h in [g] + [x for x in ast.walk(g) if isinstance(x, (ast.FunctionDef, ast.AsyncFunctionDef)) and x is not g]:
+                    reads = {n.id for n in own_nodes(h) if isinstance(n, ast.Name) and isinstance(n.ctx, ast.Load)}
+                    hb = {a.arg for a in h.args.args} | {n.id for n in own_nodes(h) if isinstance(n, ast.Name) and isinstance(n.ctx, ast.Store)}
+                    hdecl = {v2 for n in own_nodes(h) if isinstance(n, (ast.Global, ast.Nonlocal)) for v2 in n.names}
+                    if v in reads and v not in hb and v not in hdecl:
+                        return True
+        for g in inner:
+            if visit(g, (enclosing_bound | own) - decl):
+                return True
+        return False
+
+    for top in tree.body:
+        if isinstance(top, (ast.FunctionDef, ast.AsyncFunctionDef)) and visit(top, set()):
+            return True
+    return False
+
+
 def classify(c, reason):
     if c.payload["stream"] == "scope":
-        f = c.payload.get("features", [])
-        for k in ("native-closure", "method-on-temporary"):        # recorded known findings (C03-F1 is fixed)
+        f = list(c.payload.get("features", []))
+        if "random-nesting" in f and global_decl_shadows_enclosing(c.payload["src"]):
+            f.append("global-decl-shadows-enclosing")
+        for k in ("native-closure", "method-on-temporary", "global-decl-shadows-enclosing"):   # open findings
             if k in f:
                 return k
         return "scope:" + "+".join(f)
